@@ -33,6 +33,7 @@ def main():
     ap.add_argument("name"); ap.add_argument("prop"); ap.add_argument("outdir")
     ap.add_argument("--pkgdir", default=None); ap.add_argument("--run", default=None); ap.add_argument("--needs", default="")
     ap.add_argument("--checks", default=None); ap.add_argument("--democmd", default="go run .")
+    ap.add_argument("--demoenv", default="", help="e.g. GOARCH=386: environment for the demonstration command")
     a = ap.parse_args()
     wt = "/tmp/vseed/" + a.name
     shutil.rmtree(wt, ignore_errors=True)
@@ -53,10 +54,10 @@ def main():
             def demo():
                 shutil.copy(demo_test, dst)
                 try:
-                    return sh("go test -vet=off -count=1 -run '%s' ./%s" % (run, pkgdir if pkgdir != "." else ""), cwd=wt)
+                    return sh("%s go test -vet=off -count=1 -run '%s' ./%s" % (("env " + a.demoenv) if a.demoenv else "", run, pkgdir if pkgdir != "." else ""), cwd=wt)
                 finally:
                     os.remove(dst)
-            demo_cmd = "copy demo_test.go into %s/ ; go test -vet=off -count=1 -run '%s' ./%s" % (pkgdir, run, pkgdir)
+            demo_cmd = "copy demo_test.go into %s/ ; %s go test -vet=off -count=1 -run '%s' ./%s" % (pkgdir, a.demoenv, run, pkgdir)
         else:
             scratch_demo = "/tmp/vseed/" + a.name + "_demo"
             shutil.rmtree(scratch_demo, ignore_errors=True)
@@ -65,8 +66,8 @@ def main():
             gm = re.sub(r"(replace\s+github.com/alttpo/snes\s*=>\s*)\S+", r"\g<1>" + wt, gm)
             open(os.path.join(scratch_demo, "go.mod"), "w").write(gm)
             def demo():
-                return sh(a.democmd, cwd=scratch_demo)
-            demo_cmd = "demo/ with its go.mod replace pointed at the worktree ; " + a.democmd
+                return sh((("env " + a.demoenv + " ") if a.demoenv else "") + a.democmd, cwd=scratch_demo)
+            demo_cmd = "demo/ with its go.mod replace pointed at the worktree ; " + a.demoenv + " " + a.democmd
         rc0, out0 = demo()
         log.append("demo on unmodified code: exit %d" % rc0)
         rc, out = sh("git apply %s" % patch, cwd=wt)
